@@ -101,7 +101,7 @@ var specs = map[string]*spec{
 		Probes: []string{"snapshot-installed", "log-discarded", "log-compacted", "partial-snapshot-discarded", "installsnapshot-second-chunk"}},
 	"C14": {ID: "C14", Profiles: []string{"crashsweep"}, Engine: "cluster", Accept: []string{"C14"}, Level: "exploration",
 		Rule: "one run = one seeded cluster simulation with snapshots on and crashes immediately before/after/inside the k-th storage operation of a node. Non-trivial: >= 1 crash at a storage operation followed by a restart. Distinct: distinct event-log hashes among those."},
-	"C15": {ID: "C15", Profiles: []string{"liveness", "core"}, Engine: "cluster", Accept: []string{"C15"}, Level: "exploration",
+	"C15": {ID: "C15", Profiles: []string{"liveness", "core", "liveness", "membership"}, Engine: "cluster", Accept: []string{"C15"}, Level: "exploration",
 		Rule: "one run = one seeded faulty cluster simulation followed by a fault-free phase of 60 election timeouts. Non-trivial: >= 1 fault fired before the heal phase. Distinct: distinct event-log hashes among those.",
 		Probes: []string{"heal-converged", "heal-restarted-bare-majority"}},
 }
@@ -401,6 +401,7 @@ type finding struct {
 	Property    string `json:"property"`
 	Kind        string `json:"kind"`
 	CausePrefix string `json:"cause_prefix"`
+	CauseHas    string `json:"cause_has,omitempty"`
 	What        string `json:"what"`
 	Replay      string `json:"replay,omitempty"`
 	Commit      string `json:"commit,omitempty"`
@@ -429,7 +430,7 @@ func matchFinding(fs []finding, v violation) *finding {
 		if f.Status != "open" {
 			continue
 		}
-		if f.Property == v.Property && f.Kind == v.Kind && strings.HasPrefix(v.Cause, f.CausePrefix) {
+		if f.Property == v.Property && f.Kind == v.Kind && strings.HasPrefix(v.Cause, f.CausePrefix) && strings.Contains(v.Cause, f.CauseHas) {
 			return f
 		}
 	}
